@@ -393,8 +393,11 @@ def main():
                         pre = history_prefix(r['base'], summ, v['line'] - 1)
                         impl_viol.append((g, v, pre, ' '.join(run['args'])))
             for kmsg in summ.get('known', []):
-                # findings the harness classifies itself (e.g. K1): must be listed for this property
-                impl_viol.append((g, {'prop': 'C03', 'line': 0, 'msg': kmsg, 'classified': True}, None, ' '.join(run['args'])))
+                # findings the harness classifies itself (K1, K2, K3): the message starts with the id of the entry of
+                # known_findings.json; its property is the one listed there (an unlisted id counts against C03)
+                kid = kmsg.split()[0] if kmsg.split() else ''
+                kprop = next((k['property'] for k in known if k.get('id') == kid), 'C03')
+                impl_viol.append((g, {'prop': kprop, 'line': 0, 'msg': kmsg, 'classified': True}, None, ' '.join(run['args'])))
             for key in ('runs', 'events', 'crash_points', 'freeze_runs', 'max_solo_steps'):
                 if key in summ:
                     conc_stats[key] = max(conc_stats.get(key, 0), summ[key]) if key == 'max_solo_steps' else conc_stats.get(key, 0) + summ[key]
